@@ -54,21 +54,26 @@ def wireNodes (w : Wire) : List (Nat × Int) :=
 def wireEdges (w : Wire) : List (Nat × Nat × Nat × Int) :=
   (enumFrom 0 w.edges).filterMap fun (i, e) => e.map fun (a, b, x) => (i, a, b, x)
 
+/-- the holes a deserializer sees: none when the `node_holes` field does not arrive -/
+def effWire (order : List Field) (w : Wire) : Wire := if order.contains .h then w else { w with holes := [] }
+
+/-- the conditions common to all three kinds, on the wire value the deserializer sees -/
+def wireCommon (END : Nat) (directed : Bool) (order : List Field) (w : Wire) : Bool :=
+  let total := w.nodes.length + w.holes.length
+  order.contains .n && order.contains .p && order.contains .e &&
+  w.prop == some directed &&
+  decide (total ≤ END) && decide (w.edges.length ≤ END) &&
+  strictlyIncreasing w.holes && w.holes.all (· < total) &&
+  w.edges.all fun e => match e with
+    | none => true
+    | some (a, b, _) => decide (a < total) && decide (b < total) && !w.holes.contains a && !w.holes.contains b
+
 /-- is the wire the serialization of a valid graph of the target kind (index type maximum `END`)? -/
 def wireValid (kind : Kind) (END : Nat) (directed : Bool) (order : List Field) (w0 : Wire) : Bool :=
-  let w := if order.contains .h then w0 else { w0 with holes := [] }
-  let total := w.nodes.length + w.holes.length
-  let common :=
-    order.contains .n && order.contains .p && order.contains .e &&
-    w.prop == some directed &&
-    total ≤ END && w.edges.length ≤ END &&
-    strictlyIncreasing w.holes && w.holes.all (· < total) &&
-    w.edges.all fun e => match e with
-      | none => true
-      | some (a, b, _) => a < total && b < total && !w.holes.contains a && !w.holes.contains b
+  let w := effWire order w0
   match kind with
-  | .stable => common
-  | _ => common && w.holes.isEmpty && w.edges.all (·.isSome)
+  | .stable => wireCommon END directed order w
+  | _ => wireCommon END directed order w && w.holes.isEmpty && w.edges.all (·.isSome)
 
 /-- `from_graph`: nodes with the same weight are merged, the last parallel edge wins -/
 def mapOfGraph (directed : Bool) (nodes : List (Nat × Int)) (edges : List (Nat × Nat × Nat × Int)) :
@@ -83,7 +88,7 @@ def mapOfGraph (directed : Bool) (nodes : List (Nat × Int)) (edges : List (Nat 
   (ns, es)
 
 def absWire (kind : Kind) (END : Nat) (directed : Bool) (order : List Field) (w0 : Wire) : AGraph :=
-  let w := if order.contains .h then w0 else { w0 with holes := [] }
+  let w := effWire order w0
   match kind with
   | .map =>
     let (ns, es) := mapOfGraph directed (wireNodes w) (wireEdges w)
@@ -106,29 +111,58 @@ def expectedNbrs (edges : List (Nat × Nat × Nat × Int)) (a : Nat) : List Nat 
   (edges.filterMap fun (_, s, t, _) => if s = a then some t else none) ++
   (edges.filterMap fun (_, s, t, _) => if t = a ∧ s ≠ a then some s else none)
 
-/-- every consistency guarantee of `Graph` / `StableGraph` that shows in a dump -/
-def obsConsistent (kind : Kind) (END : Nat) (directed : Bool) (o : Obs) : Option String :=
+/-- the first check that fails, with its message (`conds` and `msgs` are parallel lists) -/
+def firstFalse : List Bool → List String → Option String
+  | [], _ => none
+  | true :: cs, ms => firstFalse cs ms.tail
+  | false :: _, ms => some (ms.headD "")
+
+/-- every consistency guarantee of `Graph` / `StableGraph` that shows in a dump, as a list of checks … -/
+def obsConds (kind : Kind) (END : Nat) (directed : Bool) (o : Obs) : List Bool :=
   let nids := o.nodes.map (·.1)
   let eids := o.edges.map (·.1)
-  if o.nc ≠ o.nodes.length then some s!"node_count {o.nc} but {o.nodes.length} nodes are listed"
-  else if o.ec ≠ o.edges.length then some s!"edge_count {o.ec} but {o.edges.length} edges are listed"
-  else if !strictlyIncreasing nids then some "node indices not strictly increasing"
-  else if !strictlyIncreasing eids then some "edge indices not strictly increasing"
-  else if kind == .graph && (nids != List.range o.nc || eids != List.range o.ec) then some "Graph indices are not compact"
-  else if o.nb ≠ (match nids.getLast? with | some x => x + 1 | none => 0) then some s!"node_bound {o.nb} is not last node index + 1"
-  else if o.eb ≠ (match eids.getLast? with | some x => x + 1 | none => 0) then some s!"edge_bound {o.eb} is not last edge index + 1"
-  else if o.nb > END then some s!"node index space {o.nb} exceeds the index type's capacity {END}"
-  else if o.eb > END then some s!"edge index space {o.eb} exceeds the index type's capacity {END}"
-  else match o.edges.find? (fun (_, s, t, _) => !nids.contains s || !nids.contains t) with
-    | some (e, s, t, _) => some s!"edge {e} = ({s},{t}) has an endpoint that is not a live node"
-    | none =>
-      if !sameMultiset (o.adj.map (·.1)) nids then some "adjacency listed for a different node set"
-      else match o.adj.find? (fun (a, out, inn, nb) =>
-          !sameMultiset out (expectedOut directed o.edges a) ||
-          !sameMultiset inn (expectedIn directed o.edges a) ||
-          !sameMultiset nb (expectedNbrs o.edges a)) with
-        | some (a, _, _, _) => some s!"edge lists of node {a} are not its incident edges"
-        | none => none
+  [ o.nc == o.nodes.length,
+    o.ec == o.edges.length,
+    strictlyIncreasing nids,
+    strictlyIncreasing eids,
+    !(kind == .graph && (nids != List.range o.nc || eids != List.range o.ec)),
+    o.nb == (match nids.getLast? with | some x => x + 1 | none => 0),
+    o.eb == (match eids.getLast? with | some x => x + 1 | none => 0),
+    decide (o.nb ≤ END),
+    decide (o.eb ≤ END),
+    o.edges.all (fun (_, s, t, _) => nids.contains s && nids.contains t),
+    sameMultiset (o.adj.map (·.1)) nids,
+    o.adj.all (fun (a, out, inn, nb) =>
+      sameMultiset out (expectedOut directed o.edges a) &&
+      sameMultiset inn (expectedIn directed o.edges a) &&
+      sameMultiset nb (expectedNbrs o.edges a)) ]
+
+/-- … and the message of each -/
+def obsMsgs (directed : Bool) (END : Nat) (o : Obs) : List String :=
+  let nids := o.nodes.map (·.1)
+  [ s!"node_count {o.nc} but {o.nodes.length} nodes are listed",
+    s!"edge_count {o.ec} but {o.edges.length} edges are listed",
+    "node indices not strictly increasing",
+    "edge indices not strictly increasing",
+    "Graph indices are not compact",
+    s!"node_bound {o.nb} is not last node index + 1",
+    s!"edge_bound {o.eb} is not last edge index + 1",
+    s!"node index space {o.nb} exceeds the index type's capacity {END}",
+    s!"edge index space {o.eb} exceeds the index type's capacity {END}",
+    (match o.edges.find? (fun (_, s, t, _) => !nids.contains s || !nids.contains t) with
+      | some (e, s, t, _) => s!"edge {e} = ({s},{t}) has an endpoint that is not a live node"
+      | none => ""),
+    "adjacency listed for a different node set",
+    (match o.adj.find? (fun (a, out, inn, nb) =>
+        !sameMultiset out (expectedOut directed o.edges a) ||
+        !sameMultiset inn (expectedIn directed o.edges a) ||
+        !sameMultiset nb (expectedNbrs o.edges a)) with
+      | some (a, _, _, _) => s!"edge lists of node {a} are not its incident edges"
+      | none => "") ]
+
+/-- every consistency guarantee of `Graph` / `StableGraph` that shows in a dump: the first violated one -/
+def obsConsistent (kind : Kind) (END : Nat) (directed : Bool) (o : Obs) : Option String :=
+  firstFalse (obsConds kind END directed o) (obsMsgs directed END o)
 
 /-- the observation shows exactly the abstract graph -/
 def obsMatches (a : AGraph) (o : Obs) : Option String :=
@@ -147,23 +181,40 @@ structure MapObs where
   adj : List (Int × List Int × List Int)
   deriving Repr
 
+def mapExpected (directed : Bool) (keys : List (Int × Int)) (a : Int) : List Int × List Int :=
+  let eo := if directed then keys.filterMap fun (x, y) => if x = a then some y else none
+            else keys.filterMap fun (x, y) => if x = a then some y else if y = a then some x else none
+  let ei := if directed then keys.filterMap fun (x, y) => if y = a then some x else none else eo
+  (eo, ei)
+
+def mapObsConds (directed : Bool) (o : MapObs) : List Bool :=
+  let keys := o.edges.map (·.1)
+  [ o.nc == o.nodes.length,
+    o.ec == o.edges.length,
+    o.nodes.all (fun n => o.nodes.count n == 1),
+    o.edges.all (fun (k, _) => keys.count k == 1),
+    directed || o.edges.all (fun ((a, b), _) => a ≤ b),
+    o.edges.all (fun ((a, b), _) => o.nodes.contains a && o.nodes.contains b),
+    sameMultiset (o.adj.map (·.1)) o.nodes,
+    o.adj.all (fun (a, out, inn) =>
+      sameMultiset out (mapExpected directed keys a).1 && sameMultiset inn (mapExpected directed keys a).2) ]
+
+def mapObsMsgs (directed : Bool) (o : MapObs) : List String :=
+  let keys := o.edges.map (·.1)
+  [ "GraphMap node_count differs from the nodes listed",
+    "GraphMap edge_count differs from the edges listed",
+    "GraphMap lists a node twice",
+    "GraphMap lists an edge key twice",
+    "undirected GraphMap edge key not canonical",
+    "GraphMap edge with an absent endpoint",
+    "GraphMap adjacency for a different node set",
+    (match o.adj.find? (fun (a, out, inn) =>
+        !sameMultiset out (mapExpected directed keys a).1 || !sameMultiset inn (mapExpected directed keys a).2) with
+      | some (a, _, _) => s!"GraphMap neighbours of {a} are not its incident edges"
+      | none => "") ]
+
 def mapObsConsistent (directed : Bool) (o : MapObs) : Option String :=
-  if o.nc ≠ o.nodes.length then some "GraphMap node_count differs from the nodes listed"
-  else if o.ec ≠ o.edges.length then some "GraphMap edge_count differs from the edges listed"
-  else if !o.nodes.all (fun n => o.nodes.count n == 1) then some "GraphMap lists a node twice"
-  else if !o.edges.all (fun (k, _) => (o.edges.map (·.1)).count k == 1) then some "GraphMap lists an edge key twice"
-  else if !directed && !o.edges.all (fun ((a, b), _) => a ≤ b) then some "undirected GraphMap edge key not canonical"
-  else if !o.edges.all (fun ((a, b), _) => o.nodes.contains a && o.nodes.contains b) then some "GraphMap edge with an absent endpoint"
-  else if !sameMultiset (o.adj.map (·.1)) o.nodes then some "GraphMap adjacency for a different node set"
-  else
-    let keys := o.edges.map (·.1)
-    match o.adj.find? (fun (a, out, inn) =>
-      let eo := if directed then keys.filterMap fun (x, y) => if x = a then some y else none
-                else keys.filterMap fun (x, y) => if x = a then some y else if y = a then some x else none
-      let ei := if directed then keys.filterMap fun (x, y) => if y = a then some x else none else eo
-      !sameMultiset out eo || !sameMultiset inn ei) with
-    | some (a, _, _) => some s!"GraphMap neighbours of {a} are not its incident edges"
-    | none => none
+  firstFalse (mapObsConds directed o) (mapObsMsgs directed o)
 
 def mapObsMatches (a : AGraph) (o : MapObs) : Option String :=
   if !sameMultiset o.nodes a.mnodes then some "GraphMap nodes differ from the expected graph"
